@@ -229,6 +229,14 @@ def s4(ck, an):
             ok = False
     ck.check(ok, "SIGN", "S4.liq-is-opposite", fl.f.short, fl.f.loc, "liq_price(q) is acq_price(-q): longs liquidate at the bid, shorts at the ask",
              f"liq_price returns {fl.sym.canon(rets[0].value) if rets else '?'}", construct="liq_price")
+    # the vectorised selectors pair the i-th key with the i-th sign
+    for short, texts in (("Exchange.acq_prices", ["np.array([self[k].acq_price(s) for k, s in zip({k}, {s})])", "numpy.array([self[k].acq_price(s) for k, s in zip({k}, {s})])"]),
+                         ("Exchange.liq_prices", ["self.acq_prices({k}, -{s})", "np.array([self[k].liq_price(s) for k, s in zip({k}, {s})])", "np.array([self[k].acq_price(-s) for k, s in zip({k}, {s})])"])):
+        fx = an.fa(short)
+        kp, sp = fx.f.params[1:3]
+        ok, got = returns_spec(fx, *[t.format(k=kp, s=sp) for t in texts])
+        ck.check(ok and len(got) == 1, "ARGFLOW", "S4.vector-selectors-pair-key-with-sign", fx.f.short, fx.f.loc, f"{short} prices the i-th key on the side given by the i-th sign",
+                 f"{short} returns {got}", construct=f"{short}")
     fm = an.fa("LimitOrderBook.mid_price")
     rets = returns_in(fm)
     v = fm.sym.canon(rets[0].value) if rets else "?"
